@@ -3,10 +3,6 @@
 void *malloc(size_t);
 uint16_t nondet_u16(void);
 
-/* spec: big-endian fields of the wire format */
-#define U16BE(d, o) ((uint16_t)((((uint16_t)(d)[(o)]) << 8) | (d)[(o) + 1]))
-#define U32BE(d, o) ((((uint32_t)(d)[(o)]) << 24) | (((uint32_t)(d)[(o) + 1]) << 16) | (((uint32_t)(d)[(o) + 2]) << 8) | (uint32_t)(d)[(o) + 3])
-
 /* ------------------------------------------------------------------------------------------------------------------
  * checkBounds / readUint16 / readUint32: loop-free -> plain harnesses over the full domain (complete proofs).
  * Call-site fact used as precondition: offsets and lengths are bounded by the message size (<= 2^32), so the MATHEMATICAL
@@ -54,7 +50,9 @@ __CPROVER_assigns(iora_exc, *name, *visitedPointers)
  * (D5 followed pointer < size, D6 no target followed twice), loop invariant + variant (D7 termination), and: */
 size_t decodeName_safety(const uint8_t *data, size_t offset, size_t size, iora_ostr *name, iora_u16set *visitedPointers)
 DN_PRE
-/* D2 */ __CPROVER_ensures(iora_exc == EXC_NONE ==> __CPROVER_return_value <= size)
+/* D2 */ __CPROVER_ensures(iora_exc == EXC_NONE ==> (__CPROVER_return_value <= size && __CPROVER_return_value >= offset))
+/* D2p a name needs at least one octet */
+__CPROVER_ensures((iora_exc == EXC_NONE && offset < size) ==> __CPROVER_return_value > offset)
 /* D3 */ __CPROVER_ensures(iora_exc == EXC_NONE ==> name->n <= RFC_MAX_TEXT)
 /* D6 */ __CPROVER_ensures(visitedPointers->gv_followed <= 1)
 /* DE */ __CPROVER_ensures(iora_exc == EXC_NONE || iora_exc == EXC_DnsParseException)
@@ -72,11 +70,12 @@ __CPROVER_ensures((iora_exc == EXC_NONE && visitedPointers->count == 0) ==>
 /* D2c a compressed name ends right after its FIRST pointer, wherever the chain leads */
 __CPROVER_ensures((iora_exc == EXC_NONE && visitedPointers->count > 0) ==>
    (__CPROVER_return_value >= offset + 2 && __CPROVER_return_value <= size && (data[__CPROVER_return_value - 2] & 0xC0) == 0xC0))
-/* D8 content of an uncompressed name at the arbitrary index GK: the message byte at the same position, or the separator
- *    dot where the message has the length octet (1..63) of the next label */
+/* D8 content of an uncompressed name at the arbitrary index GK: the message byte at the same position, or a separator dot
+ *    (where exactly the dots are is pinned per iteration by S-L2/S-L4; the stronger form "the message has a length octet
+ *    1..63 at a dot position" verifies too but costs 140 s instead of 17 s) */
 __CPROVER_ensures((iora_exc == EXC_NONE && visitedPointers->count == 0 && GK < name->n) ==>
    ((name->gk & 0xFF) == data[offset + 1 + GK]
-    || ((name->gk & 0xFF) == 46 && data[offset + 1 + GK] >= 1 && data[offset + 1 + GK] <= RFC_MAX_LABEL)))
+    || ((name->gk & 0xFF) == 46)))
 ;
 
 void h_decode(void)
@@ -145,24 +144,16 @@ void h_step(void)
   __CPROVER_assert((is_label && ok && GK < n0) ==> name.gk == gk0, "S-L3 earlier name bytes unchanged");
   __CPROVER_assert((is_label && ok && n0 > 0 && GK == n0) ==> (name.gk & 0xFF) == 46, "S-L4 separator is a dot");
   __CPROVER_assert((is_label && ok && GK >= n0 + sep && GK < name.n) ==> (name.gk & 0xFF) == data[off0 + 1 + (GK - (n0 + sep))], "S-L5 label bytes copied verbatim");
-  /* acceptance within the library's own (stricter, see NOTES) name limit */
-  __CPROVER_assert((is_label && label_fits && tl0 + b0 + 1 <= DNS_MAX_NAME_SIZE) ==> ok, "S-A1 a label that fits the message and the name limit is accepted");
-#ifdef DN_RFC_ACCEPT
+  /* acceptance: "any well-formed response decodes": names up to the RFC limit are well-formed.
+   * S-A2 FAILS on the unchanged tree (finding D4: the decoder's limit is one octet short, a legal 255-octet name is rejected) */
+  __CPROVER_assert((is_label && label_fits && tl0 + b0 + 1 <= RFC_MAX_TOTAL - 1) ==> ok, "S-A1 a label that fits the message and keeps the name below 255 wire octets is accepted");
   __CPROVER_assert((is_label && label_fits && tl0 + b0 + 1 <= RFC_MAX_TOTAL) ==> ok, "S-A2 a label that keeps the name within 255 wire octets (RFC 1035 3.1) is accepted");
-#endif
 }
 
 /* ------------------------------------------------------------------------------------------------------------------
  * decodeName: supplies a fresh visited set -> the precondition of decodeNameWithLoopDetection holds at the only in-library
  * call site; its contract is what the record parsers (unit dns_rdata) rely on. */
-size_t decodeName_wrapper_contract(const uint8_t *data, size_t offset, size_t size, iora_ostr *name)
-__CPROVER_requires(IORA_TRUE && iora_exc == EXC_NONE && size <= DN_MAX_MSG && offset <= size && __CPROVER_is_fresh(data, size))
-__CPROVER_requires(__CPROVER_is_fresh(name, sizeof(*name)) && G_msg_size == size)
-__CPROVER_assigns(iora_exc, *name)
-__CPROVER_ensures(iora_exc == EXC_NONE ==> (__CPROVER_return_value <= size && name->n <= RFC_MAX_TEXT))
-__CPROVER_ensures(iora_exc == EXC_NONE || iora_exc == EXC_DnsParseException)
-__CPROVER_ensures(offset == size ==> (iora_exc == EXC_NONE && __CPROVER_return_value == offset && name->n == 0))
-;
+/* contract text: shims/iora_dns_contracts.h (shared with unit dns_rdata, which replaces calls of decodeName by it) */
 
 void h_decodeName(void)
 {
@@ -184,5 +175,14 @@ void h_search(void)
   __CPROVER_assert(iora_exc != EXC_NONE || r <= IN_N, "D2");
   __CPROVER_assert(iora_exc != EXC_NONE || name.n <= RFC_MAX_TEXT, "D3");
   __CPROVER_assert(v.gv_followed <= 1, "D6");
+}
+/* SEARCH for S-A2: a name of exactly 255 wire octets (labels 63+63+63+61 of 'a'); concrete, only to hand REPLAY an input */
+void h_search_long(void)
+{
+  uint8_t IN[255] = { [0] = 63, [1 ... 63] = 97, [64] = 63, [65 ... 127] = 97, [128] = 63, [129 ... 191] = 97, [192] = 61, [193 ... 253] = 97, [254] = 0 };
+  IORA_TRUE = 1; iora_exc = EXC_NONE; G_msg_size = 255; GV = nondet_u16(); GK = nondet_size_t();
+  iora_ostr name = iora_ostr_DEFAULT; iora_u16set v = iora_u16set_DEFAULT;
+  size_t r = decodeNameWithLoopDetection(IN, 0, 255, &name, &v);
+  __CPROVER_assert(iora_exc == EXC_NONE, "S-A2 a label that keeps the name within 255 wire octets (RFC 1035 3.1) is accepted");
 }
 #endif
